@@ -56,6 +56,12 @@ PROBES = ["shortcut_taken", "rescan_forced_by_other_handle", "rescan_after_faile
           "multibyte_key_stored", "multibyte_key_oversize_in_bytes_only", "reopened_without_explicit_mode"]
 
 
+def pre_checks(tier):
+    from ..conformance import real_fs
+
+    return {"conformance_fs": real_fs.run()}
+
+
 def budget(tier):
     if tier == "quick":
         return {"runs": 160000, "chunk": 500, "wall_cap": 400.0, "det_sample": 8}
